@@ -121,6 +121,36 @@ theorem C16_apply_model_count {α : Type} [CommRing α] (T : Transform α) (X : 
   · intro h
     simp [h]
 
+/-- **Error paths, exactly.**  `apply` succeeds iff the model counts agree and both translation arrays
+have one row or one row per model; every other call is refused (`IndexError` for the model count —
+`C16_apply_model_count` — otherwise `ValueError`), and since the model is a pure function a refused
+call cannot have changed the transformation or its argument. -/
+theorem C16_apply_accepts_iff {α : Type} [CommRing α] (T : Transform α) (X : Stack α) :
+    (∃ Y, T.applyStack X = .ok Y) ↔
+      X.length = T.rotation.length ∧ (T.center.length = X.length ∨ T.center.length = 1) ∧
+      (T.target.length = X.length ∨ T.target.length = 1) := by
+  unfold Transform.applyStack
+  by_cases hlen : X.length = T.rotation.length
+  · simp only [hlen, ne_eq, not_true_eq_false, if_false, true_and]
+    constructor
+    · rintro ⟨Y, h⟩
+      cases h1 : addBroadcast X T.center with
+      | error e => simp [h1, bind, Except.bind] at h
+      | ok s =>
+        simp only [h1, bind, Except.bind] at h
+        have hs := (addBroadcast_spec X T.center s h1).1
+        have hm := (multiMatmul_spec T.rotation s (by omega)).1
+        have c1 := (addBroadcast_isOk X T.center).mp ⟨s, h1⟩
+        have c2 := (addBroadcast_isOk _ T.target).mp ⟨Y, h⟩
+        refine ⟨by omega, by omega⟩
+    · rintro ⟨c1, c2⟩
+      obtain ⟨s, h1⟩ := (addBroadcast_isOk X T.center).mpr (by omega)
+      have hs := (addBroadcast_spec X T.center s h1).1
+      have hm := (multiMatmul_spec T.rotation s (by omega)).1
+      obtain ⟨Y, h2⟩ := (addBroadcast_isOk (multiMatmul T.rotation s) T.target).mpr (by omega)
+      exact ⟨Y, by simp only [h1, bind, Except.bind]; exact h2⟩
+  · simp [hlen]
+
 /-! ## The fitted coordinates are `apply` of the returned transformation -/
 
 /-- `superimpose` returns `(transform.apply(mobile), transform)`: the fitted coordinates are
